@@ -56,6 +56,7 @@ class Plan:
         self.assumptions = []
         self.exhaustive = False
         self.level = "model_checking"
+        self.proofs = []        # (TLAPS module, expected number of obligations)
 
 
 def add_edge_families(p, cfgname, edges):
@@ -94,7 +95,9 @@ def plan_for(prop, tier, seed):
     G = gen
     MCP = "MC_Placement"
     if prop == "C01":
-        p.mc = [(MCP, "MC_Placement_in_q" if q else "MC_Placement_in_t", 12, 3000, None),
+        p.proofs = [("Lemmas", 15)]
+        p.mc = [("MC_Small", "MC_Small_lemmadefs", 4, 900, None),
+                (MCP, "MC_Placement_in_q" if q else "MC_Placement_in_t", 12, 3000, None),
                 (MCP, "MC_Placement_seq_q" if q else "MC_Placement_seq_t", 12, 3000, None)] + ([] if q else [(MCP, "MC_Placement_d2_t", 12, 3000, None)])
         p.rule = ("scenario = configuration (model, window, orientation, transport, SPI buffer) + program; non-trivial: "
                   "the program contains at least 3 in-bounds drawing calls through at least 2 different entry points")
@@ -465,6 +468,13 @@ def check(prop, tier, seed):
             mc_res.append(r)
             if edges:
                 add_edge_families(p, cfgname, edges)
+        proof_res = []
+        for (module, expected) in p.proofs:
+            pr = run.run_tlapm(module, workdir)
+            log("[%s] TLAPS %s: %d of %d obligations proved in %.1fs" % (prop, module, pr["proved"], pr["obligations"], pr["wall_s"]))
+            if pr["proved"] != pr["obligations"] or pr["obligations"] < expected:
+                raise ToolError("TLAPS proof of %s incomplete: %s" % (module, pr))
+            proof_res.append(pr)
         by_id, viol, stat, tstates, ttrans, fam_info = execute_families(p, seed, workdir)
         new_by_scn, known_hits, others = verdicts(prop, by_id, viol)
         for line, vs in known_hits.items():
@@ -528,6 +538,7 @@ def check(prop, tier, seed):
                 "known_findings_seen": sorted(known_hits.keys()),
                 "verdict_records_for_other_properties": others,
                 "measured_row_capacity": stat.get("rowcap", 0),
+                "tlaps_proofs": proof_res,
                 "drift_calls_compared_with_driver_layer": stat.get("driftcmp", 0),
                 "drift_events": stat.get("drift", 0) + getattr(execute_tables, "drift", 0),
                 "drift_examples": stat.get("_drift", [])[:5],
